@@ -1168,6 +1168,97 @@ pub fn gen_wait_loops(rng: &mut Rng) -> Program {
     p
 }
 
+/// park / unpark as message passing: the parked thread looks at data afterwards; one unparker
+/// publishes before it unparks, another one unparks without publishing (so that returning from
+/// `park` must synchronise with exactly the unpark that woke it, in every iteration anew).
+pub fn gen_park_mp(rng: &mut Rng) -> Program {
+    let mut vs = ValueSrc::new();
+    let pal = *rng.pick(&[Palette::RlxOnly, Palette::RelAcq, Palette::All]);
+    let mut p = Program { atomics: vec![0, 0], ..Default::default() };
+    let n_unparkers = rng.range(1, 2);
+    let waiter_is_main = rng.chance(2, 3);
+    // (threads are numbered in spawn order; the waiter must exist before it can be unparked)
+    let waiter: usize = if waiter_is_main { 0 } else { 1 };
+    let mut w = vec![Op::Park];
+    for _ in 0..rng.range(1, 2) {
+        w.push(Op::Load { a: rng.below(2) as u8, o: pick_load_ord(rng, pal) });
+    }
+    let mut unparkers: Vec<Vec<Op>> = Vec::new();
+    for i in 0..n_unparkers {
+        let mut b = Vec::new();
+        if i == 0 || rng.chance(1, 3) {
+            for _ in 0..rng.range(1, 2) {
+                b.push(Op::Store { a: rng.below(2) as u8, v: vs.constant(), o: pick_store_ord(rng, pal) });
+            }
+        }
+        b.push(Op::Unpark { t: waiter as u8 });
+        unparkers.push(b);
+    }
+    let mut t0 = Vec::new();
+    if waiter_is_main {
+        for i in 0..n_unparkers {
+            t0.push(Op::Spawn { t: (i + 1) as u8 });
+        }
+        t0.extend(w);
+        for i in 0..n_unparkers {
+            t0.push(Op::Join { t: (i + 1) as u8 });
+        }
+        p.threads = vec![t0];
+        p.threads.extend(unparkers);
+    } else {
+        for i in 0..=n_unparkers {
+            t0.push(Op::Spawn { t: (i + 1) as u8 });
+        }
+        for i in 0..=n_unparkers {
+            t0.push(Op::Join { t: (i + 1) as u8 });
+        }
+        p.threads = vec![t0];
+        p.threads.push(w);
+        p.threads.extend(unparkers);
+    }
+    p
+}
+
+/// Readers of an RwLock that must be able to overlap: each thread (after an optional write
+/// section of its own) stores to its atomic and loads the other's inside a read section. Both
+/// loads seeing the other store needs both read locks held at once.
+pub fn gen_rw_overlap(rng: &mut Rng) -> Program {
+    let mut vs = ValueSrc::new();
+    let nt = rng.range(2, 3);
+    let mut p = Program { atomics: vec![0; nt], n_rwlock: 1, ..Default::default() };
+    let mut bodies: Vec<Vec<Op>> = Vec::new();
+    for t in 0..nt {
+        let mut b = Vec::new();
+        if rng.chance(1, 2) {
+            b.push(Op::WLock { l: 0 });
+            b.push(Op::WUnlock { l: 0 });
+        }
+        b.push(Op::RLock { l: 0 });
+        b.push(Op::Store { a: t as u8, v: vs.constant(), o: MO::Sc });
+        b.push(Op::Load { a: ((t + 1) % nt) as u8, o: MO::Sc });
+        b.push(Op::RUnlock { l: 0 });
+        bodies.push(b);
+    }
+    let mut t0 = Vec::new();
+    let main_takes_part = rng.chance(1, 2);
+    let first = if main_takes_part { 1 } else { 0 };
+    let n_spawned = nt - first;
+    for i in 0..n_spawned {
+        t0.push(Op::Spawn { t: (i + 1) as u8 });
+    }
+    if main_takes_part {
+        t0.extend(bodies[0].clone());
+    }
+    for i in 0..n_spawned {
+        t0.push(Op::Join { t: (i + 1) as u8 });
+    }
+    p.threads = vec![t0];
+    for b in bodies.into_iter().skip(first) {
+        p.threads.push(b);
+    }
+    p
+}
+
 /// Message passing through a channel: the sender writes a cell before each send; the receiver
 /// takes the messages with a mix of `recv` and `try_recv` and reads the cell that belongs to the
 /// message it got (each receive must synchronise with ITS send).
